@@ -112,7 +112,7 @@ impl Report {
             "bfs_levels": st.levels, "cap_hit": st.cap_hit,
             "fringe_states_depth_plus_1": st.fringe_states, "fringe_consumer_transitions": st.fringe_transitions,
             "enabled_opcodes_no_enumerated_choice_answer_selects": st.unselectable_choices,
-            "deviation_runs": st.deviation_runs, "abstraction_splits": st.abstraction_splits,
+            "deviation_runs": st.deviation_runs, "abstraction_splits": st.abstraction_splits, "coarse_key_splits_first_pass": st.coarse_key_splits,
             "longest_script_bytes": st.max_script_len,
             "transitions_per_chosen_opcode": st.op_transitions.iter().map(|(k,v)| (lexer::name(*k).to_string(), json!(v))).collect::<serde_json::Map<_,_>>(),
         }));
